@@ -309,10 +309,14 @@ func (cl *cluster) route(n, x string) map[string]any {
 	}
 	sort.Strings(hit)
 	switch {
-	case len(hit) == 1 && err == nil:
+	case len(hit) == 1:
+		// the command frame reached that node: the decision is made whatever became of the answer
 		r["r"], r["node"] = "forward", hit[0]
+	case len(hit) == 0 && err != nil && (strings.Contains(err.Error(), "not connected") || strings.Contains(err.Error(), "state inconsistent")):
+		r["r"] = "none" // refused: the lookup found nobody (or only this node itself)
+		r["err"] = short(err.Error())
 	case len(hit) == 0 && err != nil:
-		r["r"] = "none"
+		r["r"] = "neterr" // dialling / talking to the peer listener failed: environment, not a decision
 		r["err"] = short(err.Error())
 	default:
 		r["r"] = "odd"
@@ -421,7 +425,13 @@ func drive(env *fw.Env, b fw.Behaviour) *fw.Trace {
 			return &fw.Trace{Status: fw.DriverError, Note: "unknown step " + s.A}
 		}
 		t.Events = append(t.Events, ev)
-		t.Events = append(t.Events, cl.observe())
+		obs := cl.observe()
+		for _, r := range obs["routes"].([]any) {
+			if m := r.(map[string]any); m["r"] == "neterr" || m["r"] == "odd" {
+				return &fw.Trace{Status: fw.Inconclusive, Note: fmt.Sprintf("peer listener trouble while observing the routing decision: %v", m["err"])}
+			}
+		}
+		t.Events = append(t.Events, obs)
 		if time.Since(segStart) > spanBudget {
 			return &fw.Trace{Status: fw.Inconclusive, Note: fmt.Sprintf("two segments and a tick took %v (> %v)", time.Since(segStart).Round(time.Millisecond), spanBudget)}
 		}
@@ -468,7 +478,7 @@ func main() {
 					mcJob("mc:1x3:all-fix-subsets", two, 3, `{"X"}`, everySubset),
 					mcJob("mc:2x3", two, 3, `{"X", "Y"}`, asIsAndRepaired),
 					mcJob("mc:3nodes:1x3", three, 3, `{"X"}`, asIsAndRepaired),
-					mcJob("mc:3nodes:1x4", three, 4, `{"X"}`, "{"+allFixes+"}"),
+					mcJob("mc:1x4", two, 4, `{"X"}`, asIsAndRepaired),
 				}
 			}
 			return []fw.TLCJob{
